@@ -435,6 +435,8 @@ def explore(ctx, factor, bs):
     deadline = None if factor == 1 else time.time() + ctx.pick(60, 300)
 
     def more():
+        if len(ctx.failures) >= 10:
+            return False  # enough concrete failing inputs; every further one costs the attribution re-runs
         return deadline is None or (time.time() < deadline and not ctx.failures)
 
     # name probes first: small forms, the cheapest way to a concrete input when a name check changed
